@@ -126,10 +126,75 @@ def run(repo="/repo", build=None, twin=False, rlimit=None, threads=16, extra_arg
         res["status"] = "ok"
     res["meta"] = {"labels": meta["labels"], "contracted": meta["contracted"], "fn_inventory": meta["fn_inventory"],
                    "files": meta["files"], "rewrite_log": meta["rewrite_log"], "fn_lines": fn_lines,
-                   "lemma_props": meta.get("lemma_props", {})}
+                   "lemma_props": meta.get("lemma_props", {}), "calls": call_graph(out_rs) if not twin else {}}
+    if not twin:
+        res["assumption_scan"] = assumption_scan(out_rs)
     # per-function smt times
     res["fn_times"] = _fn_times(oj.get("times-ms"))
     return res
+
+
+def assumption_scan(gen):
+    """mechanical scan of the generated file + contracts for unproved assumptions."""
+    found = []
+    if not os.path.exists(gen):
+        return found
+    cur_fn = None
+    lines_ = open(gen).read().split("\n")
+    for no, line in enumerate(lines_, 1):
+        m = re.search(r"// @F:(\S+)", line)
+        if m:
+            cur_fn = m.group(1)
+        s = line.strip()
+        if s.startswith("//"):
+            continue
+        if re.search(r"#\[verifier::external(_body)?\]", line):
+            # name the item the attribute is attached to (next fn / impl / struct line)
+            kind = "external_body" if "external_body" in line else "external"
+            what = ""
+            for j in range(no, min(no + 6, len(lines_))):
+                mm = re.search(r"\b(fn\s+\w+|impl\b[^{]*|struct\s+\w+|enum\s+\w+|trait\s+\w+)", lines_[j])
+                if mm:
+                    what = mm.group(1).strip()
+                    break
+            mk = ""
+            for j in range(max(0, no - 4), min(no + 3, len(lines_))):
+                m2 = re.search(r"// @F:(\S+)", lines_[j])
+                if m2:
+                    mk = m2.group(1)
+            found.append({"line": no, "kind": kind, "text": (mk or what)[:160]})
+            continue
+        for pat, what in ((r"\bassume_specification\b", "assume_specification"), (r"\bassume\s*\(", "assume"),
+                          (r"\badmit\s*\(", "admit"), (r"\bbroadcast axiom fn\b", "axiom"), (r"\baxiom fn\b", "axiom")):
+            if re.search(pat, line):
+                nxt = ""
+                found.append({"line": no, "kind": what, "text": s[:160]})
+    return found
+
+
+
+def call_graph(gen):
+    """function key -> keys of contracted functions whose name occurs as a call in its generated text (over-approximation)."""
+    lines = open(gen).read().split("\n")
+    marks = [(no, m.group(1)) for no, l in enumerate(lines) for m in [re.search(r"// @F:(\S+) ", l)] if m]
+    bodies = {}
+    for i, (no, key) in enumerate(marks):
+        end = marks[i + 1][0] if i + 1 < len(marks) else len(lines)
+        bodies.setdefault(key, "")
+        bodies[key] += "\n".join(lines[no:end])
+    by_name = {}
+    for key in bodies:
+        by_name.setdefault(key.split("::")[-1], set()).add(key)
+    calls = {}
+    for key, txt in bodies.items():
+        names = set(re.findall(r"\b([a-z_][a-z0-9_]*)\s*(?:::<[^>]*>)?\(", txt))
+        cs = set()
+        for n in names:
+            for k2 in by_name.get(n, ()):
+                if k2 != key:
+                    cs.add(k2)
+        calls[key] = sorted(cs)
+    return calls
 
 
 def module_at(lines, lineno):
